@@ -12,11 +12,15 @@
      last moov of the INPUT, and every entry of them, read from the returned metadata at the same place relative to
      the moov payload, is the input entry shifted by |metadata| − span.offset, inside its field.
   Tied to the code by the correspondence (remux generator) and by `Spec_C01` evaluated on the real output.
-  Not yet proved: that the walker, run on the OUTPUT, finds the tables at those places (the frame property of the
-  walker; `Spec_C01` decides it on every generated case).
+   * `C01_spec_holds` (for every input): the executable specification `Spec_C01` itself - the independent walker run on
+     the input AND on the returned metadata: same tables (number, order, width, count, place), every entry shifted by
+     |metadata| − span.offset, shift within i32 - has no complaint about any result the model returns
+     (Lemmas/WalkFrame.lean: the walker reads nothing of a table's entries, so it finds the same tables in the
+     metadata, moved; Lemmas/SpecHolds.lean).
 -/
 import MediaSan.Lemmas.Mp4Displace
 import MediaSan.Lemmas.RelocateFinal
+import MediaSan.Lemmas.SpecHolds
 namespace MediaSan.Props.C01
 open MediaSan MediaSan.Mp4 MediaSan.Generated
 
@@ -191,6 +195,16 @@ theorem C01_relocated (s : Stream) (kind : SkipKind) (cfg : Config) (r : Sanitiz
   obtain ⟨x, hx, rfl⟩ := List.mem_map.mp ht
   exact ⟨p2 x hx i hi, (hent x hx i hi).2.1, (hent x hx i hi).2.2⟩
 
+
+/-- C01 as the executable specification states it, for EVERY input, configuration and cursor kind: `Spec_C01` (Spec/
+    Mp4Rules.lean - the function the check evaluates on the real output; the independent walker run on the input and
+    on the returned metadata) has no complaint about any result the model returns with metadata: the walker finds the
+    same chunk-offset tables in the metadata as in the input's last moov (number, order, width, count, place relative
+    to the payload), every entry is the input entry shifted by |metadata| − span.offset, and the shift fits i32. -/
+theorem C01_spec_holds (s : Stream) (kind : SkipKind) (cfg : Config) (r : Sanitized) (md : Bytes)
+    (h : Mp4.sanitize s kind cfg = .ok r) (hmd : r.metadata = some md) :
+    Spec_C01 s ⟨cfg.maxMetadataSize, cfg.cumulativeMdatBoxSize⟩ (.rewritten (Stream.ofBytes md) r.data.offset r.data.len) = none :=
+  C01R.spec_C01_holds s kind cfg r md h hmd
 
 -- Non-vacuity: media before the movie box: metadata of 76 bytes is returned for a span at 20, the shift is 56
 example : (match Mp4.sanitize (Stream.ofBytes MediaSan.Props.C02.tinyRemux) .seekable {} with
